@@ -220,6 +220,11 @@ func (o *c05Oracle) walkStruct(fs []c05Fld, obj *c05JV, val reflect.Value, path 
 			// a key "parent.child" is looked up in the nested object `parent` by the code; the
 			// statement does not speak about such keys: UNSPECIFIED, only the predicates of known panics
 			o.unspec("dotted-key")
+			if o.native {
+				// (F22, repaired by b8457b6: recursiveValuer.Value merged an enclosing object's map INTO the
+				// document's own map; a typed nil map there panicked "assignment to entry in nil map")
+				o.class("dotted-key:native")
+			}
 			pc := strings.SplitN(f.key(i), ".", 2)
 			if ps := obj.lookup(pc[0]); len(pc) == 2 && len(ps) == 1 && ps[0].T == "obj" {
 				for _, cv := range ps[0].lookup(pc[1]) {
